@@ -95,7 +95,7 @@ Variable T : table pay.
 Variable LS : list dna.
 Variables idf colf : dna -> N.
 Hypothesis Hok : tbl_ok pay K st T.
-Hypothesis HL : links_ok pay st T LS.
+Hypothesis HL : links_loose pay st T LS.
 Hypothesis Hdata : forall ent, In ent T -> e_data pay ent = (colf (e_key pay ent), [idf (e_key pay ent)]).
 Variable g : list node_t.
 Hypothesis Hc : compress_kmers pay pay_reduce (pay_join mode) st T = Some g.
@@ -247,15 +247,21 @@ Proof.
     rewrite <- rc_lk, cn_rc_ in H; auto. now apply lk_wf.
 Qed.
 
+(* closure and the source clause of [links_ok]: only used for the completeness of the link set, [merge_elim] and
+   maximality; everything else holds for tables whose extensions may lead to absent k-mers *)
+Hypothesis Hcl : forall ent d b, In ent T -> (b < 4)%N -> e_has_ext (e_exts pay ent) (dirb d) b = true ->
+  In (canon_k st (extend (e_key pay ent) b d)) (keys pay T).
+Hypothesis Hsrc : forall w, In w LS -> exists ent d b, In ent T /\ (b < 4)%N /\ w = cn st (lk (e_key pay ent) d b).
+
 Lemma graph_links_complete w : In w LS -> In w (graph_links K st g).
 Proof.
-  intro Hw. destruct (lo_src _ _ _ _ HL w Hw) as (ent & d & b & Hin & Hb & ->).
+  intro Hw. destruct (Hsrc w Hw) as (ent & d & b & Hin & Hb & ->).
   destruct (key_facts pay K st HK T Hok ent Hin) as (Lk & Wk & Nk & He).
   destruct (kpal st (e_key pay ent)) eqn:P.
-  - destruct (proj2 (lo_pal _ _ _ _ HL ent d b Hin Hb P) Hw) as [Hh|Hh]; [now apply key_link|].
+  - destruct (proj2 (ll_pal _ _ _ _ HL ent d b Hin Hb P) Hw) as [Hh|Hh]; [now apply key_link|].
     pose proof (key_link ent _ _ Hin (comp_lt4 b) Hh) as H. apply kpal_iff in P as [Hs P].
     rewrite P in H at 1. rewrite <- rc_lk, cn_rc_ in H; auto. now apply lk_wf.
-  - apply key_link; auto. now apply (lo_np _ _ _ _ HL ent d b Hin Hb P).
+  - apply key_link; auto. now apply (ll_np _ _ _ _ HL ent d b Hin Hb P).
 Qed.
 
 Theorem graph_links_iff w : In w (graph_links K st g) <-> In w LS.
@@ -328,7 +334,7 @@ Proof.
   assert (Nxx : e_num_ext_dir ex true = 1%N) by (apply (num_ext_filter ex true (oexts_lt_ _ _ Hx)); now rewrite Er).
   assert (Ey : y = extend x b DRight) by exact Hm.
   assert (Wy : wf_dna y) by (rewrite Ey; now apply extend_wf).
-  pose proof (link_closed pay K st HK T LS Hok HL x ex DRight b W Lx Hb4 Hx Hhx) as Hky. rewrite <- Ey in Hky.
+  pose proof (link_closed pay K st HK T LS Hok HL Hcl x ex DRight b W Lx Hb4 Hx Hhx) as Hky. rewrite <- Ey in Hky.
   destruct (oexts_of_key pay K st T Hok y Wy Hky) as [ey Hy].
   rewrite (llinks_np y ey Wy Hy H1) in El.
   assert (Hcin : In c (filter (e_has_ext ey false) bases4)) by (rewrite El; now left).
@@ -642,8 +648,11 @@ Theorem compress_assembly_abs K st mode (T : table pay) (LS : list dna) (idf col
   Permutation (graph_kmers K st g) (keys pay T) /\ (forall w, In w (graph_links K st g) <-> In w LS) /\
   unitig_graph K st mode colf g /\ PipelineCheck.payload_ok K st mode idf colf g.
 Proof.
-  intros HK Hok HL Hd Hc. split; [exact (graph_kmers_keys K st mode HK T LS Hok HL g Hc)|].
-  split; [exact (graph_links_iff K st mode HK T LS Hok HL g Hc)|].
-  split; [exact (graph_unitig K st mode HK T LS idf colf Hok HL Hd g Hc) | exact (graph_payload K st mode HK T LS idf colf Hok HL Hd g Hc)].
+  intros HK Hok HL Hd Hc. pose proof (links_ok_loose _ _ _ _ HL) as HLl.
+  pose proof (lo_closed _ _ _ _ HL) as Hcl. pose proof (lo_src _ _ _ _ HL) as Hsrc.
+  split; [exact (graph_kmers_keys K st mode HK T LS Hok HLl g Hc)|].
+  split; [eapply (graph_links_iff K st mode HK T LS Hok HLl g Hc); eassumption|].
+  split; [eapply (graph_unitig K st mode HK T LS idf colf Hok HLl Hd g Hc); eassumption
+         | exact (graph_payload K st mode HK T LS idf colf Hok HLl Hd g Hc)].
 Qed.
 Print Assumptions compress_assembly_abs.
